@@ -389,6 +389,28 @@ def attribute_pieces(ctx):
                 names = {n_.id for t_ in st.targets for n_ in ast.walk(t_) if isinstance(n_, ast.Name)}
                 stored = any(isinstance(s_, ast.Assign) and any(P.matches(t_, "self.parsed_attributes[$k]") for t_ in s_.targets) and isinstance(s_.value, ast.Name) and s_.value.id in names for s_ in walk_func(fn))
     ctx.check(bool(joined) and len(set(outs)) == 1 and stored, "joined-in-order", db.where(fn), "the pieces are not joined with + in the order they were found and stored as the attribute's expression", "' + '.join(pieces) stored in parsed_attributes")
+    # the names every expression piece reads are accumulated (they are what the generated code fetches from the context)
+    uses = [n_ for n_ in ast.walk(fn) if isinstance(n_, ast.Attribute) and n_.attr == "undeclared_identifiers" and isinstance(n_.ctx, ast.Load) and not (isinstance(n_.value, ast.Name) and n_.value.id == "self")]
+    acc_ok = bool(uses)
+    for u_ in uses:
+        st_ = enclosing_stmt(u_)
+        if isinstance(st_, ast.Assign) and len(st_.targets) == 1 and isinstance(st_.targets[0], ast.Name):
+            t_ = st_.targets[0].id
+            if P.matches(st_.value, "%s.union($x)" % t_) or P.matches(st_.value, "%s | $x" % t_) or P.matches(st_.value, "$x | %s" % t_) or P.matches(st_.value, "$x.union(%s)" % t_):
+                continue
+            if st_.value is u_:
+                # a plain name for the piece's own set is fine when that name is then accumulated
+                loop_ = next((a_ for a_ in ancestors(st_) if isinstance(a_, (ast.For, ast.While))), fn)
+                if any(isinstance(c_, ast.Call) and isinstance(c_.func, ast.Attribute) and c_.func.attr in ("update", "union") and any(isinstance(a_, ast.Name) and a_.id == t_ for a_ in c_.args) for c_ in ast.walk(loop_)):
+                    continue
+            acc_ok = False
+        elif isinstance(st_, ast.AugAssign) and isinstance(st_.op, ast.BitOr):
+            continue
+        elif isinstance(st_, ast.Expr) and isinstance(st_.value, ast.Call) and isinstance(st_.value.func, ast.Attribute) and st_.value.func.attr == "update":
+            continue
+        else:
+            acc_ok = False
+    ctx.check(acc_ok, "identifiers-accumulated", db.where(uses[0]) if uses else db.where(lp), "the names read by the expression pieces of one attribute are not accumulated piece by piece (a later piece replaces those of the earlier ones): names used only in an earlier ${...} are not fetched from the context and the attribute raises NameError at render time", "undeclared identifiers of every piece are added to the attribute's set")
     mutators = [c_ for c_ in ast.walk(fn) if isinstance(c_, ast.Call) and isinstance(c_.func, ast.Attribute) and c_.func.attr in ("sort", "reverse", "insert", "pop", "remove") and outs and _dumpname(c_.func.value) == outs[0]]
     ctx.check(not mutators, "no-reorder", db.where(mutators[0]) if mutators else db.where(fn), "the list of pieces is reordered / pruned before it is joined", "pieces untouched between collection and join")
 
